@@ -10,6 +10,7 @@ import (
 	"sort"
 	"strings"
 	"sync"
+	"sync/atomic"
 
 	j "github.com/mfcochauxlaberge/jsonapi"
 
@@ -183,6 +184,21 @@ func c12Ops() []c12Op {
 			out, err := j.MarshalDocument(doc, u)
 			return string(out) + fmt.Sprint(err)
 		}},
+		// a JSON filter tree (and/or nodes recurse through Filter.UnmarshalJSON)
+		url("/a?filter=%7B%22o%22%3A%22and%22%2C%22v%22%3A%5B%7B%22f%22%3A%22x%22%2C%22o%22%3A%22%3D%22%2C%22v%22%3A%22a%22%7D%2C%7B%22o%22%3A%22or%22%2C%22v%22%3A%5B%7B%22f%22%3A%22y%22%2C%22o%22%3A%22%3E%22%2C%22v%22%3A1%7D%5D%7D%5D%7D"),
+		// a handler's own "view" struct, not part of the schema, wrapped inside the request; in the
+		// free-running pass every call uses a struct type the library has never seen before
+		{"Wrap(view struct)+MarshalDocument", func(s *j.Schema) string {
+			v := reflect.New(c12ViewType()).Elem()
+			v.Field(0).SetString("v1")
+			v.Field(1).SetString("title")
+			r := j.Wrap(v.Addr().Interface())
+			name := r.GetType().Name
+			u := &j.URL{Fragments: []string{name, "v1"}, ResType: name, ResID: "v1",
+				Params: &j.Params{Fields: map[string][]string{name: {"title"}}, RelData: map[string][]string{}, SortingRules: []string{}, Include: [][]j.Rel{}}}
+			out, err := j.MarshalDocument(&j.Document{Data: r}, u)
+			return strings.ReplaceAll(string(out), name, "views") + fmt.Sprint(err)
+		}},
 		{"HasType", func(s *j.Schema) string { return fmt.Sprint(s.HasType("a"), s.HasType("c"), s.HasType("nope")) }},
 		{"GetType", func(s *j.Schema) string {
 			t, n := s.GetType("b"), s.GetType("nope")
@@ -191,6 +207,26 @@ func c12Ops() []c12Op {
 		{"Check", func(s *j.Schema) string { return fmt.Sprint(s.Check()) }},
 		{"Rels", func(s *j.Schema) string { return showRels(s.Rels()) }},
 	}
+}
+
+var (
+	c12FreshTypes bool
+	c12TypeSeq    atomic.Int64
+	c12FixedView  = c12MakeView(0)
+)
+
+func c12MakeView(n int64) reflect.Type {
+	return reflect.StructOf([]reflect.StructField{
+		{Name: "ID", Type: reflect.TypeOf(""), Tag: reflect.StructTag(fmt.Sprintf(`json:"id" api:"views%d"`, n))},
+		{Name: "Title", Type: reflect.TypeOf(""), Tag: `json:"title" api:"attr"`},
+	})
+}
+
+func c12ViewType() reflect.Type {
+	if c12FreshTypes {
+		return c12MakeView(c12TypeSeq.Add(1))
+	}
+	return c12FixedView
 }
 
 // c12Shared renders the shared state: deep snapshot of the schema (all fields,
@@ -457,6 +493,7 @@ func c12Sequences(x *mc.Exec) {
 // C12RaceWorker is executed in the -race build (original sources): real
 // goroutines, no scheduler. Reports of the race detector go to stderr.
 func C12RaceWorker() {
+	c12FreshTypes = true
 	ops := c12Ops()
 	for _, order := range []int{0, 3, 5} {
 		s := c12Schema(order)
@@ -552,7 +589,7 @@ func init() {
 	_ = sort.Strings
 	Register(&Prop{
 		ID: "C12",
-		Rule: "Engine C (cooperative scheduler over the yield points the instrumenter puts before every statement) + snapshot monitor. Shared schema: a struct-backed type, a soft type with a two-way relationship to it, and a soft type with nil maps, in every order of the three types. 15 operations with private inputs (3 URL parses, 2 document unmarshals, 2 partial unmarshals, Type.New()+Set for each type, marshaling an own document, HasType, GetType, Check, Rels). (1) every operation x 6 type orders run alone with the deep snapshot of the schema recomputed after EVERY statement (a change = a shared write, attributed to the function); (2) every operation against 6 representative operations on 2 threads (thorough: every ordered pair) and every triple of 3 (thorough 6) representative operations on 3 threads: ALL schedules with scheduling points at function entries and <= 1 preemption (thorough: <= 2), each thread's result compared with its solo result, schema snapshot unchanged; thorough adds statement-granularity schedules for 10 query-vs-parser pairs; (3) every ordered pair of operations run in sequence from the state the first one leaves (state count must stay 1); (4) a separate free-running pass of the same operation bodies under the Go race detector (2, 4, 16 goroutines). By the lemma in DESIGN.md 2.4, no write step in any solo run => no interleaving of any number of such threads contains one. Non-trivial = schedule with at least one context switch / monitored solo run",
+		Rule: "Engine C (cooperative scheduler over the yield points the instrumenter puts before every statement) + snapshot monitor. Shared schema: a struct-backed type, a soft type with a two-way relationship to it, and a soft type with nil maps, in every order of the three types. 17 operations with private inputs (4 URL parses incl. a JSON and/or filter tree, wrapping and marshaling a handler's own view struct that is not in the schema - in the free-running pass a struct type never seen before on every call -, 2 document unmarshals, 2 partial unmarshals, Type.New()+Set for each type, marshaling an own document, HasType, GetType, Check, Rels). (1) every operation x 6 type orders run alone with the deep snapshot of the schema recomputed after EVERY statement (a change = a shared write, attributed to the function); (2) every operation against 6 representative operations on 2 threads (thorough: every ordered pair) and every triple of 3 (thorough 6) representative operations on 3 threads: ALL schedules with scheduling points at function entries and <= 1 preemption (thorough: <= 2), each thread's result compared with its solo result, schema snapshot unchanged; thorough adds statement-granularity schedules for 10 query-vs-parser pairs; (3) every ordered pair of operations run in sequence from the state the first one leaves (state count must stay 1); (4) a separate free-running pass of the same operation bodies under the Go race detector (2, 4, 16 goroutines). By the lemma in DESIGN.md 2.4, no write step in any solo run => no interleaving of any number of such threads contains one. Non-trivial = schedule with at least one context switch / monitored solo run",
 		Assumptions: []string{"an unsynchronised write that stores an unchanged value is invisible to the snapshot monitor; it is left to the permuted type orders and to the free-running -race pass (supporting evidence)", "memory-model effects below statement granularity are not modelled"},
 		Harnesses: []Harness{
 			{Name: "C12/solo-monitor", Body: c12Solo},
